@@ -12,6 +12,7 @@ import (
 	"go/constant"
 	"go/token"
 	"go/types"
+	"net/textproto"
 	"strconv"
 	"strings"
 )
@@ -1140,11 +1141,30 @@ func buildClientArm(p *Program, fd *ast.FuncDecl, cl *ast.CaseClause, respObj, c
 						}
 					}
 				}
-				if ok && calleeName(info, call) == "net/http.Header.Values" && len(call.Args) == 1 && strings.HasPrefix(types.ExprString(call.Fun), rn+".Header.") {
+				// the header map indexed directly (possibly behind a helper): resp.Header[K] is Values(K) exactly
+				// when K is already in canonical form
+				var directKey ast.Expr
+				rhsE := ast.Unparen(st.Rhs[0])
+				if ok && calleeName(info, call) != "net/http.Header.Values" {
+					if e, ok2 := p.inliner().expandExprCall(call); ok2 {
+						rhsE = ast.Unparen(e)
+					}
+				}
+				if ix, isIx := rhsE.(*ast.IndexExpr); isIx && types.ExprString(ix.X) == rn+".Header" {
+					directKey = ix.Index
+				}
+				if directKey != nil || (ok && calleeName(info, call) == "net/http.Header.Values" && len(call.Args) == 1 && strings.HasPrefix(types.ExprString(call.Fun), rn+".Header.")) {
 					hsObj := identObj(info, st.Lhs[0])
 					row := &ParamRow{In: "header", Pos: st.Pos()}
 					arm.Rows = append(arm.Rows, row)
-					k, okK := c.constStr(call.Args[0])
+					keyExpr := directKey
+					if keyExpr == nil {
+						keyExpr = call.Args[0]
+					}
+					k, okK := c.constStr(keyExpr)
+					if okK && directKey != nil && textproto.CanonicalMIMEHeaderKey(k) != k {
+						row.Problems = append(row.Problems, fmt.Sprintf("the header map is indexed with the non-canonical key %q: net/http stores headers under canonical keys, the lookup never matches", k))
+					}
 					if !okK {
 						row.Undecided = append(row.Undecided, "response header key is not a constant")
 						continue
@@ -1163,7 +1183,9 @@ func buildClientArm(p *Program, fd *ast.FuncDecl, cl *ast.CaseClause, respObj, c
 								grp = append(grp, nx)
 							}
 							blk := &ast.BlockStmt{Lbrace: ifs.Pos(), List: grp, Rbrace: grp[len(grp)-1].End()}
+							c.foldKey = directKey != nil
 							c.typestate(row, blk, hsObj, nil, false)
+							c.foldKey = false
 							i += len(grp)
 							continue
 						}
